@@ -23,10 +23,11 @@ Transcribed sources (file:line of /repo):
   breed/prot/gt/DenseMasked{Phased,Unphased}Genotyping.py, DenseUnphasedGenotyping.py   `genotype`
 
 Class quirks kept as they are in the source (each has a `…_counterexample` in Props/C03.lean):
-  D14 square insert/incorp/concat edit one axis only       D27 (was D18) `newObj` with `pureDropsOther`
+  D14 square insert/incorp/concat edit one axis only
 Repaired in /repo (the old behaviour is kept only for the `…_prerepair_counterexample`s):
   D3  3438b72e `reorderKPre`          D4  ec46686b `stepGenericPre` / `dispatchSelfCall`
   D17 74ad0b65 `scalarInsertRaw`      D19/D28 0d32ae5d `genotypePre`
+  D27 `pureDropsOther` (`newObj`)     D17b `insertZeroDimKPrerepair` (Model/LabelMatX.lean)
 -/
 import PybropsModel.Np
 
@@ -221,8 +222,9 @@ structure Schema where
   scalarInsertRaw : Bool := false
   /-- the `mat` setter demands a square array (DenseCoancestryMatrix: `check_all_equal`) -/
   squareCheck : Bool := false
-  /-- DenseSquareTaxaTraitMatrix inherits the axis-specific non-mutating methods of its single-bundle
-      parents: the object they build carries only the edited bundle's labels (D18) -/
+  /-- (pre-repair, before the fix of D27) DenseSquareTaxaTraitMatrix inherited the axis-specific non-mutating
+      methods of its single-bundle parents: the object they built carried only the edited bundle's labels.
+      Only consulted by the `…_prerepair_counterexample`s -/
   pureDropsOther : Bool := false
   deriving DecidableEq, Repr
 
